@@ -377,11 +377,13 @@ Theorem C12_keep_default : forall A (l : list A), apply_keep keep_default l = Kr
 Proof. exact keep_default_identity. Qed.
 Print Assumptions C12_keep_default.
 
-(* A boolean mask of the right length is the selection of the cache model; ANY other length is an IndexError (never
-   a silently shortened selection); the index-list form np.nonzero(mask)[0] of a mask selects the same values. *)
+(* A boolean mask of the right length is the selection of the cache model; an EMPTY mask selects nothing (numpy
+   special case); ANY other length is an IndexError (never a silently shortened selection); the index-list form
+   np.nonzero(mask)[0] of a mask selects the same values. *)
 Theorem C12_keep_mask :
   (forall A (m : list bool) (l : list A), apply_keep (KpMask m) l =
-     if Nat.eqb (List.length m) (List.length l) then KrVals (select_mask m l) else KrIndexErr) /\
+     if Nat.eqb (List.length m) (List.length l) then KrVals (select_mask m l)
+     else match m with [] => KrVals [] | _ => KrIndexErr end) /\
   (forall A (m : list bool) (l : list A), List.length m = List.length l ->
      apply_keep (KpIdx (true_pos m 0)) l = apply_keep (KpMask m) l).
 Proof. exact (conj keep_mask_spec keep_idx_of_mask). Qed.
@@ -673,12 +675,12 @@ Proof. exact (conj fill_dummy_table fill_dummy_agrees). Qed.
 Print Assumptions C12_concat_dummy_table.
 
 (* The dtype the default is chosen by is the common dtype of the parts that HAVE the sensor: it is the dtype of one
-   of them, absorbs every other (bool < int < float, strings only with strings) and does not depend on their order. *)
+   of them, absorbs every other (bool < int < float < str, as np.result_type) and does not depend on their order. *)
 Theorem C12_concat_common_dtype :
   (forall l d, promote_all l = Some d -> In d l /\ forall x, In x l -> x <> DObj -> promote2 x d = Some d) /\
   (forall l l', Permutation.Permutation l l' -> promote_all l = promote_all l') /\
   (promote_all [DBool; DInt] = Some DInt /\ promote_all [DInt; DFloat; DBool] = Some DFloat /\
-   promote_all [DStr; DStr] = Some DStr /\ promote_all [DStr; DInt] = None /\ promote_all [] = None /\
+   promote_all [DStr; DStr] = Some DStr /\ promote_all [DStr; DInt] = Some DStr /\ promote_all [] = None /\
    promote_all [DBool] = Some DBool).
 Proof. exact (conj promote_all_spec (conj promote_all_perm promote_examples)). Qed.
 Print Assumptions C12_concat_common_dtype.
